@@ -67,7 +67,7 @@ func funcRel(o *ssa.Function) string {
 }
 
 func newExec(L *Loaded, fn *ssa.Function, fc *FuncContract) *Exec {
-	x := &Exec{L: L, X: newXlat(), fn: fn, fc: fc, comps: map[string]string{}, assumed: map[string]bool{}, abstracts: map[string]bool{}}
+	x := &Exec{L: L, X: newXlat(), fn: fn, fc: fc, comps: map[string]string{}, assumed: map[string]bool{}, abstracts: map[string]bool{}, inlined: map[string]bool{}}
 	for _, p := range L.Pkgs {
 		x.X.specPkgs[p.Types] = true
 	}
